@@ -37,7 +37,6 @@ from jax2onnx.plugins.jax.lax._index_utils import (
     _gather_int_scalar,
     _scalar_i64,
     _shape_of,
-    _const_i64,
     _unsqueeze_scalar,
 )
 
@@ -1433,65 +1432,6 @@ class ScanPlugin(PrimitiveLeafPlugin):
                     per_step_val.type = ir.TensorType(target_enum)
                     _ensure_value_metadata(loop_ctx, per_step_val)
                     loop_ctx.bind_value_for_var(per_step_var, per_step_val)
-            if (
-                scatter_static_extent is not None
-                and isinstance(scatter_static_extent, (int, np.integer))
-                and int(scatter_static_extent) > 1
-            ):
-                per_step_shape = getattr(
-                    getattr(per_step_var, "aval", None), "shape", ()
-                )
-                rank = len(per_step_shape)
-                if rank >= 1:
-                    gather_shape = _shape_of(
-                        loop_ctx, per_step_val, "scan_per_step_shape"
-                    )
-                    start_tail = _const_i64(
-                        loop_ctx,
-                        np.asarray([1], dtype=np.int64),
-                        "scan_per_step_shape_start",
-                    )
-                    limit_tail = _const_i64(
-                        loop_ctx,
-                        np.asarray([rank], dtype=np.int64),
-                        "scan_per_step_shape_limit",
-                    )
-                    axes_tail = _const_i64(
-                        loop_ctx,
-                        np.asarray([0], dtype=np.int64),
-                        "scan_per_step_shape_axes",
-                    )
-                    tail_shape = loop_ctx.builder.Slice(
-                        gather_shape,
-                        start_tail,
-                        limit_tail,
-                        axes_tail,
-                        _outputs=[loop_ctx.fresh_name("scan_per_step_tail_shape")],
-                    )
-                    override_scalar = _scalar_i64(
-                        loop_ctx,
-                        int(scatter_static_extent),
-                        "scan_per_step_extent",
-                    )
-                    override_vec = _unsqueeze_scalar(
-                        loop_ctx,
-                        override_scalar,
-                        0,
-                        "scan_per_step_extent_vec",
-                    )
-                    target_shape = loop_ctx.builder.Concat(
-                        override_vec,
-                        tail_shape,
-                        axis=0,
-                        _outputs=[loop_ctx.fresh_name("scan_per_step_target_shape")],
-                    )
-                    expanded = loop_ctx.builder.Expand(
-                        per_step_val,
-                        target_shape,
-                        _outputs=[loop_ctx.fresh_name("scan_per_step_expand")],
-                    )
-                    _ensure_value_metadata(loop_ctx, expanded)
-                    loop_ctx.bind_value_for_var(per_step_var, expanded)
 
         lower_jaxpr_eqns(loop_ctx, jaxpr, source="scan")
 
